@@ -160,3 +160,35 @@ Definition mesh_of_lattice (st : Skeleton.skstate) : mesh :=
       cs.
 (* create_lattice from the kept contours, when the inner-triangle pass finds nothing to do *)
 Definition create_lattice_model (contours : list (list Skeleton.pix)) : mesh := finish_lattice (mesh_of_lattice (Skeleton.lattice contours)).
+
+(* ------------------------------------------------------------------ the inner-triangle pass (skeleton.py:117-152): interfaces that share both ends
+   (counted in both directions, in first-occurrence order as collections.Counter keeps them); for each such pair of ends, unless visited, the
+   first interface with those ends - if it has at most three vertices - loses its smallest vertex that the next pair's first interface does not
+   have: the cells through it take the interface's first vertex instead, its mesh edges and the vertex itself are deleted. *)
+From Forsys Require Model.Interfaces.
+Definition pair_eqb (a b : Z * Z) : bool := Z.eqb (fst a) (fst b) && Z.eqb (snd a) (snd b).
+Fixpoint index_pair (k : Z * Z) (l : list (Z * Z)) : nat :=
+  match l with [] => O | x :: t => if pair_eqb k x then O else S (index_pair k t) end.
+Definition tri_step (abe : list (list Z)) (fl inner : list (Z * Z)) (st : mesh * list (Z * Z)) (i : nat) : mesh * list (Z * Z) :=
+  let '(m, visited) := st in
+  let k := nth i inner (0, 0) in
+  let k1 := nth (S i) inner (0, 0) in
+  if existsb (pair_eqb k) visited || existsb (pair_eqb (snd k, fst k)) visited then st
+  else
+    let n := length abe in
+    let e0 := nth (Nat.modulo (index_pair k fl) n) abe [] in
+    let e1 := nth (Nat.modulo (index_pair k1 fl) n) abe [] in
+    if Nat.ltb 3 (length e0) then st
+    else
+      let vid := hd 0 (sortZ (filter (fun x => negb (memZ x e1)) e0)) in          (* np.setdiff1d(edge_0, edge_1)[0] *)
+      let m := fold_left (replace_in_cell vid (headZ e0)) (aget [] vid (ownC m)) m in
+      (remove_vertex m vid, visited ++ [k]).
+Definition inner_triangles (m : mesh) : mesh :=
+  let abe := Interfaces.create_edges_new (fun v => Nat.ltb 2 (length (aget [] v (ownE m)))) (mcells m) in
+  let fl := map (fun e => (headZ e, lastZ e)) abe ++ map (fun e => (lastZ e, headZ e)) abe in
+  let keys := fold_left (fun acc x => if existsb (pair_eqb x) acc then acc else acc ++ [x]) fl [] in
+  let inner := filter (fun k => Nat.ltb 1 (length (filter (pair_eqb k) fl))) keys in
+  fst (fold_left (tri_step abe fl inner) (seq 0 (pred (length inner))) (m, [])).
+(* create_lattice, all of it, from the kept contours *)
+Definition create_lattice_full (contours : list (list Skeleton.pix)) : mesh :=
+  finish_lattice (inner_triangles (mesh_of_lattice (Skeleton.lattice contours))).
